@@ -32,15 +32,15 @@ theorem declAll_single : ∀ (bs acc : List (String × Val)), declAll bs [acc] =
 
 /-- The parameters: each `setVar` pops one argument into the fresh slot. -/
 theorem params_run (G : GCtx) (A : Act) (hA : A.OK G) (sp : Span) (out : World) :
-    ∀ (ps : List Param) (vals : List Val) (env : CEnv) (ss : SScopes) (mem : List (Int × Val)) (ip : Nat)
+    ∀ (ps : List Param) (vals : List Val) (env : CEnv) (ss : SScopes) (mem : Mem) (ip : Nat)
       (stk : List SVal),
       (∀ p ∈ ps, p.isSingleton = false) → ps.length = vals.length → (∀ p ∈ ps, p.name ∈ A.T) →
       (∀ m ∈ codeVars (cgParams G.mod sp ps env).1, A.N m) →
       Placed A.lab A.σ A.c ip (cgParams G.mod sp ps env).1 →
       StRel G.mod A.T A.N A.σ G.lim A.mp env.scopes env.vm ss mem →
-      ∃ mem', Runs G.code G.lim G.s A.fn A.rest A.mp ip (vals.map (⟨·, none⟩) ++ stk) mem out
+      ∃ mem', Runs G.fr G.code G.lim G.s A.fn A.rest A.mp ip (vals.map (⟨·, none⟩) ++ stk) mem out
           (ip + nI (cgParams G.mod sp ps env).1) stk mem' out ∧
-        MemLe (A.mp - (A.nv : Int)) mem mem' ∧
+        MemLe G.fr (A.mp - (A.nv : Int)) mem mem' ∧
         StRel G.mod A.T A.N A.σ G.lim A.mp (cgParams G.mod sp ps env).2.scopes (cgParams G.mod sp ps env).2.vm
           (declAll ((ps.map (·.name)).zip vals) ss) mem' := by
   intro ps
@@ -49,7 +49,7 @@ theorem params_run (G : GCtx) (A : Act) (hA : A.OK G) (sp : Span) (out : World) 
     intro vals env ss mem ip stk _ hlen _ _ _ hrel
     cases vals with
     | cons _ _ => simp at hlen
-    | nil => exact ⟨mem, (Runs.refl ip stk mem out).cast (by simp [cgParams]), MemLe.refl _ _, hrel⟩
+    | nil => exact ⟨mem, (Runs.refl ip stk mem out).cast (by simp [cgParams]), MemLe.refl _ _ _, hrel⟩
   | cons p ps ih =>
     intro vals env ss mem ip stk hns hlen hT hN hpl hrel
     cases vals with
@@ -61,18 +61,19 @@ theorem params_run (G : GCtx) (A : Act) (hA : A.OK G) (sp : Span) (out : World) 
       obtain ⟨iset, hpl'⟩ := hpl.instr (i := .setVar (freshVar G.mod env p.name).1) rfl
       have hcell := hA.cell _ hNm
       have hdecl := hrel.declare hA.good p.name (hT p (by simp)) v hNm
-      have hset : Runs G.code G.lim G.s A.fn A.rest A.mp ip (⟨v, none⟩ :: (vals.map (⟨·, none⟩) ++ stk)) mem out
+      have hset : Runs G.fr G.code G.lim G.s A.fn A.rest A.mp ip (⟨v, none⟩ :: (vals.map (⟨·, none⟩) ++ stk)) mem out
           (ip + 1) (vals.map (⟨·, none⟩) ++ stk)
-          (memSetL mem (A.mp - (A.σ (freshVar G.mod env p.name).1 : Int)) v) out :=
-        Runs.of_runsTo (RunsTo.of_exec1 (fun k =>
-          reach_setVar G.code G.lim (baseOf G.s A.fn A.rest A.mp out) _ k _ mem ⟨A.fn, 0⟩ A.rest A.c rfl
+          (mem.set (A.mp - (A.σ (freshVar G.mod env p.name).1 : Int)) v) out :=
+        Runs.of_runsTo (fr := G.fr) (fun it_ => RunsTo.of_exec1 (fun k =>
+          reach_setVar G.code G.lim (baseOf (withIt G.s it_) A.fn A.rest A.mp out) _ k _ mem ⟨A.fn, 0⟩ A.rest A.c rfl
             hA.code _ sp v none iset hcell.1 hcell.2.1))
-      obtain ⟨mem', hrun, hml, hrel'⟩ := ih vals (freshVar G.mod env p.name).2 (declScopes p.name v ss) _ (ip + 1) stk
+      obtain ⟨mem', hrun, hml, hrel'⟩ := ih vals (freshVar G.mod env p.name).2 (declScopes p.name v ss)
+        (mem.set (A.mp - (A.σ (freshVar G.mod env p.name).1 : Int)) v) (ip + 1) stk
         (fun q hq => hns q (by simp [hq])) (by simpa using hlen) (fun q hq => hT q (by simp [hq]))
         (fun m hm => hN m (by
           simp only [codeVars, List.filterMap_cons, var?] at hm ⊢
           exact List.mem_cons_of_mem _ hm)) hpl' hdecl
-      refine ⟨mem', (hset.trans hrun).cast ?_, (MemLe.set _ _ _ _ hcell.2.2).trans hml, hrel'⟩
+      refine ⟨mem', (hset.trans hrun).cast ?_, (MemLe.set _ _ _ _ _ hcell.2.2).trans hml, hrel'⟩
       rw [nI_instr _ _ _ rfl]; omega
 
 theorem cgParams_scopes (mod : String) (sp : Span) : ∀ (ps : List Param) (env : CEnv) (c : List (String × String))
@@ -126,65 +127,65 @@ theorem StRel.addKey {mod T N σ lim mp c rest vm ss mem} (key lbl : String) (hk
 `addMp (-nv); ret`. -/
 theorem RunsCall.intro {G : GCtx} {fn : String} {c : List (RInstr × Span)} (hf : findCode G.code fn = some c)
     {frames : List Frame} {mp : Int} {nv ipC : Nat} {sp1 sp2 sp3 : Span} {stk stk' : List SVal}
-    {mem mem' : List (Int × Val)} {out out' : World}
+    {mem mem' : Mem} {out out' : World}
     (h0 : c[0]? = some (.addMp (nv : Int), sp1)) (hroom : mp + (nv : Int) < (G.lim.memory : Int))
-    (hrun : Runs G.code G.lim G.s fn frames (mp + (nv : Int)) 1 stk mem out ipC stk' mem' out')
+    (hrun : Runs G.fr G.code G.lim G.s fn frames (mp + (nv : Int)) 1 stk mem out ipC stk' mem' out')
     (h1 : c[ipC]? = some (.addMp (-(nv : Int)), sp2)) (h2 : c[ipC + 1]? = some (.ret, sp3)) :
     RunsCall G fn frames mp stk mem out stk' mem' out' := by
   intro k
   obtain ⟨k', e⟩ := hrun (k + 1)
   refine ⟨1 + (k' + (1 + 1)), ?_⟩
-  rw [execHN_add, execHN_one, exec1H_of_next (mkS_addMp G.code G.lim G.s fn 0 frames mp k stk mem out c hf _ sp1 h0 hroom)]
+  rw [execHN_add, execHN_one, exec1H_of_next (mkSI_addMp G.code G.lim G.s fn 0 frames mp k stk mem out c hf _ sp1 h0 hroom)]
   simp only [Nat.zero_add]
   rw [execHN_add, e]
   simp only []
   rw [execHN_add, execHN_one, exec1H_of_next
-    (mkS_addMp G.code G.lim G.s fn ipC frames (mp + (nv : Int)) (k + 1 + k') stk' mem' out' c hf _ sp2 h1 (by omega))]
+    (mkSI_addMp G.code G.lim G.s fn ipC frames (mp + (nv : Int)) (k + 1 + k') stk' mem' out' c hf _ sp2 h1 (by omega))]
   simp only []
-  rw [execHN_one, exec1H_of_next (mkS_ret G.code G.lim G.s fn (ipC + 1) frames _ _ stk' mem' out' c hf sp3 h2)]
+  rw [execHN_one, exec1H_of_next (mkSI_ret G.code G.lim G.s fn (ipC + 1) frames _ _ stk' mem' out' c hf sp3 h2)]
   have : mp + (nv : Int) + -(nv : Int) = mp := by omega
   rw [this]
   simp only [Nat.add_assoc]
 
 theorem RunsCallF.intro {G : GCtx} {fn : String} {c : List (RInstr × Span)} (hf : findCode G.code fn = some c)
     {frames : List Frame} {mp : Int} {nv : Nat} {sp1 : Span} {stk : List SVal}
-    {mem : List (Int × Val)} {out out' : World} {kd msg : String} {fsp : Span}
+    {mem : Mem} {out out' : World} {kd msg : String} {fsp : Span}
     (h0 : c[0]? = some (.addMp (nv : Int), sp1)) (hroom : mp + (nv : Int) < (G.lim.memory : Int))
     (hrun : RunsF G.code G.lim G.s fn frames (mp + (nv : Int)) 1 stk mem out kd msg fsp out') :
     RunsCallF G fn frames mp stk mem out kd msg fsp out' := by
   intro k
   obtain ⟨k', s', e, hs⟩ := hrun (k + 1)
   refine ⟨1 + k', s', ?_, hs⟩
-  rw [execHN_add, execHN_one, exec1H_of_next (mkS_addMp G.code G.lim G.s fn 0 frames mp k stk mem out c hf _ sp1 h0 hroom)]
+  rw [execHN_add, execHN_one, exec1H_of_next (mkSI_addMp G.code G.lim G.s fn 0 frames mp k stk mem out c hf _ sp1 h0 hroom)]
   simp only [Nat.zero_add, e]
 
 theorem RunsCallT.intro {G : GCtx} {fn : String} {c : List (RInstr × Span)} (hf : findCode G.code fn = some c)
     {frames : List Frame} {mp : Int} {nv ipS : Nat} {sp1 : Span} {stk0 stk : List SVal}
-    {mem mem1 mem' : List (Int × Val)} {out out1 out' : World} {msg : String} {tsp : Span}
+    {mem mem1 mem' : Mem} {out out1 out' : World} {msg : String} {tsp : Span}
     (h0 : c[0]? = some (.addMp (nv : Int), sp1)) (hroom : mp + (nv : Int) < (G.lim.memory : Int))
-    (hpre : Runs G.code G.lim G.s fn frames (mp + (nv : Int)) 1 stk0 mem out ipS stk mem1 out1)
+    (hpre : Runs G.fr G.code G.lim G.s fn frames (mp + (nv : Int)) 1 stk0 mem out ipS stk mem1 out1)
     (hT : RunsT G fn frames (mp + (nv : Int)) ipS stk mem1 out1 msg tsp mem' out') :
     RunsCallT G fn frames mp stk0 stk mem out msg tsp mem' out' := by
   intro k
   obtain ⟨k1, e1⟩ := hpre (k + 1)
   obtain ⟨k2, s1, frames', ip', mp', xs, e2, e3⟩ := hT (k + 1 + k1)
   refine ⟨1 + (k1 + k2), s1, frames' ++ [⟨fn, ip'⟩], mp', xs, ?_, ?_⟩
-  · rw [execHN_add, execHN_one, exec1H_of_next (mkS_addMp G.code G.lim G.s fn 0 frames mp k stk0 mem out c hf _ sp1 h0 hroom)]
+  · rw [execHN_add, execHN_one, exec1H_of_next (mkSI_addMp G.code G.lim G.s fn 0 frames mp k stk0 mem out c hf _ sp1 h0 hroom)]
     simp only [Nat.zero_add]
     rw [execHN_add, e1]
     exact e2
   · rw [e3]; simp only [List.append_assoc, List.singleton_append, Nat.add_assoc]
 
 theorem pcall_zero (G : GCtx) : PCall G 0 := by
-  intro g fd I stmts e _ _ _ sp vals st frames mp stk mem _ _
+  intro g fd I stmts e _ _ _ _ sp vals st frames mp stk mem _ _
   rw [callBody]
   trivial
 
 /-- **A call of a fragment function**: prologue, parameters, statements, trailing expression or
 `return`, epilogue. -/
-theorem pcall_step (G : GCtx) (hG : G.OK) (n : Nat) (hPSs : ∀ m, m + 1 = n → PGSs G m)
+theorem pcall_step (G : GCtx) (hG : G.OK') (n : Nat) (hPSs : ∀ m, m + 1 = n → PGSs G m)
     (hPE : ∀ m, m + 1 = n → PE G m) : PCall G (n + 1) := by
-  intro g fd I stmts e hK hfind hFn sp vals st frames mp stk mem hsp hmp
+  intro g fd I stmts e hK hfind hFn hgh sp vals st frames mp stk mem hsp hmp
   have hname := hFn.name
   subst hname
   obtain ⟨bsp, bty, hbody⟩ := hFn.body
@@ -236,11 +237,11 @@ theorem pcall_step (G : GCtx) (hG : G.OK) (n : Nat) (hPSs : ∀ m, m + 1 = n →
   have hhi : mp + (P.envE.nv : Int) < (G.lim.memory : Int) := by omega
   -- the activation
   obtain ⟨A, hAdef⟩ : ∃ A : Act, A = Act.mk (mangleFnName G.mod fd.name) fd.name P.cleanup frames
-    (mp + (P.envE.nv : Int)) I.c I.σ I.lab I.N I.T P.envE.nv I.φ true := ⟨_, rfl⟩
+    (mp + (P.envE.nv : Int)) I.c I.σ I.lab I.N I.T P.envE.nv I.φ true [] := ⟨_, rfl⟩
   have hA : A.OK G := by
     rw [hAdef]
     exact ⟨hFn.code, hFn.inj, hslot, by show 0 ≤ mp + (P.envE.nv : Int) - (P.envE.nv : Int); omega, hhi, hFn.phi,
-      hFn.key, hG.println, rfl⟩
+      hFn.key, hG.println, rfl, fun p hp => by simp at hp, hgh⟩
   -- the placement of the pieces
   obtain ⟨hpl1234, hpl5⟩ := hplaced.append
   obtain ⟨hpl123, hpl4⟩ := hpl1234.append
@@ -290,7 +291,7 @@ theorem pcall_step (G : GCtx) (hG : G.OK) (n : Nat) (hPSs : ∀ m, m + 1 = n →
     rw [henvB, hcl]; simp only [bodyEnv, hc']
   have henvBvm : P.envB.vm = (cgParams G.mod fd.sp fd.params env0).2.vm := by rw [henvB]; rfl
   have hgrel : GRel G A P.envB.scopes P.envB.vm [binds] mem1 := by
-    refine ⟨?_, ?_⟩
+    refine ⟨?_, ?_, fun p hp => by rw [hAdef] at hp; simp at hp, fun p hp => by rw [hAdef] at hp; simp at hp⟩
     · rw [henvBsc, henvBvm]
       rw [hc'] at hrelP
       exact hrelP.addKey _ _ (by rw [hAT]; exact hFn.key)
